@@ -230,6 +230,9 @@ func genCase(t *rapid.T, scan bool) Case {
 	}
 
 	nSTHErr := weighted(t, "nSTHErr", 6, 2, 1, 1)
+	if c.Continuous && nSTHErr == 0 && weighted(t, "pollErrs", 2, 1) == 1 {
+		nSTHErr = 1 // continuous mode polls get-sth: give those polls error bursts more often
+	}
 	if nSTHErr > 0 {
 		n := rapid.IntRange(1, 5).Draw(t, "sthErrLen")
 		for i := 0; i < n; i++ {
